@@ -30,18 +30,19 @@ import (
 func init() { props["C07"] = runC07 }
 
 type c07Case struct {
-	Op      string   `json:"op"`
-	Variant string   `json:"variant"` // ok | bad@<j> | missing@<j> | seed-ok | seed-invalid/<action>
-	N       int      `json:"n"`
-	K       int      `json:"cancel_at_hit"` // 0 = before the call, -1 = never
-	Sites   []string `json:"sites"`         // counted scheduling points (nil = all of the operation)
-	BlobHex string   `json:"blob_hex"`
-	Sizes   []int    `json:"sizes"`
-	Min     uint64   `json:"min,omitempty"`
-	Avg     uint64   `json:"avg,omitempty"`
-	Max     uint64   `json:"max,omitempty"`
-	Level   string   `json:"level"` // library | cli
-	DelayMs int      `json:"delay_ms,omitempty"` // pause inside the K-th hit before cancelling
+	Op       string   `json:"op"`
+	Variant  string   `json:"variant"` // ok | bad@<j> | missing@<j> | seed-ok | seed-invalid/<action>
+	N        int      `json:"n"`
+	K        int      `json:"cancel_at_hit"` // 0 = before the call, -1 = never
+	Sites    []string `json:"sites"`         // counted scheduling points (nil = all of the operation)
+	BlobHex  string   `json:"blob_hex"`
+	Sizes    []int    `json:"sizes"`
+	Min      uint64   `json:"min,omitempty"`
+	Avg      uint64   `json:"avg,omitempty"`
+	Max      uint64   `json:"max,omitempty"`
+	Level    string   `json:"level"`               // library | cli
+	DelayMs  int      `json:"delay_ms,omitempty"`  // pause inside the K-th hit before cancelling
+	CtxBound bool     `json:"ctx_bound,omitempty"` // the stores are bound to the context: a call fails once the context is done
 
 	Got      string `json:"impl_result,omitempty"`
 	Complete bool   `json:"impl_complete"`
@@ -106,8 +107,14 @@ func c07Exec(a vh.Args, c *c07Case) error {
 	}
 	var complete func() string
 	var run func(ctx context.Context, cc *canceller) error
-	stHook := func(cc *canceller) opHook {
-		return func(k string, id desync.ChunkID) error { cc.tick("st." + k); return nil }
+	stHookCtx := func(ctx context.Context, cc *canceller) opHook {
+		return func(k string, id desync.ChunkID) error {
+			cc.tick("st." + k)
+			if c.CtxBound && ctx.Err() != nil {
+				return errCtxBound // an in-flight request of a context-bound store fails after the cancellation
+			}
+			return nil
+		}
 	}
 	pb := desync.NullProgressBar{}
 
@@ -145,7 +152,7 @@ func c07Exec(a vh.Args, c *c07Case) error {
 			chunks[j].ID[0] ^= 0xff
 		}
 		run = func(ctx context.Context, cc *canceller) error {
-			return desync.ChopFile(ctx, name, chunks, &hookStore{ls, stHook(cc)}, c.N, pb)
+			return desync.ChopFile(ctx, name, chunks, &hookStore{ls, stHookCtx(ctx, cc)}, c.N, pb)
 		}
 		complete = func() string {
 			if kind == "bad" {
@@ -182,7 +189,7 @@ func c07Exec(a vh.Args, c *c07Case) error {
 			return err
 		}
 		run = func(ctx context.Context, cc *canceller) error {
-			return desync.Copy(ctx, ids, &hookStore{src, stHook(cc)}, &hookStore{dst, stHook(cc)}, c.N, pb)
+			return desync.Copy(ctx, ids, &hookStore{src, stHookCtx(ctx, cc)}, &hookStore{dst, stHookCtx(ctx, cc)}, c.N, pb)
 		}
 		complete = func() string { return bkReadBack(dir, idx, in.Blob) }
 
@@ -197,7 +204,7 @@ func c07Exec(a vh.Args, c *c07Case) error {
 			if err != nil {
 				return err
 			}
-			got, err = desync.ChunkStream(ctx, ch, &hookStore{ls, stHook(cc)}, c.N)
+			got, err = desync.ChunkStream(ctx, ch, &hookStore{ls, stHookCtx(ctx, cc)}, c.N)
 			return err
 		}
 		complete = func() string {
@@ -275,7 +282,7 @@ func c07Exec(a vh.Args, c *c07Case) error {
 			seeds = []desync.Seed{seed}
 		}
 		run = func(ctx context.Context, cc *canceller) error {
-			_, err := desync.AssembleFile(ctx, out, idx, &hookStore{ls, stHook(cc)}, seeds, opt)
+			_, err := desync.AssembleFile(ctx, out, idx, &hookStore{ls, stHookCtx(ctx, cc)}, seeds, opt)
 			return err
 		}
 		complete = func() string {
@@ -392,7 +399,7 @@ func c07Check(a vh.Args, o *vh.Oracle, r *vh.Result, c *c07Case, njobs int) erro
 	if c.Sites != nil {
 		siteTag = strings.Join(c.Sites, "+")
 	}
-	key := fmt.Sprintf("%s|%s|%d|%d|%s|%d|%d", c.Op, c.Variant, c.N, c.K, siteTag, len(c.Sizes), c.DelayMs)
+	key := fmt.Sprintf("%s|%s|%d|%d|%s|%d|%d|%v", c.Op, c.Variant, c.N, c.K, siteTag, len(c.Sizes), c.DelayMs, c.CtxBound)
 	r.Count(key, c.Fired)
 	r.Dist("op:" + c.Op)
 	r.Dist("n:" + strconv.Itoa(c.N))
@@ -409,8 +416,8 @@ func c07Check(a vh.Args, o *vh.Oracle, r *vh.Result, c *c07Case, njobs int) erro
 	case c.Got == "hang":
 		r.Fail("predicate", c.Op+"/hang-after-cancel", fmt.Sprintf("%s did not return within 30s (cancel at hit %d, n=%d)", c.Op, c.K, c.N), c)
 	case c.Got == "nil" && !c.Complete:
-		r.Fail("predicate", c.Op+"/nil-but-incomplete", fmt.Sprintf("%s returned nil after cancellation at hit %d (n=%d, variant %s) but the work is not complete: %s", c.Op, c.K, c.N, c.Variant, c.Detail), c)
-	case c.Fired && (c.Variant == "ok" || c.Variant == "seed-ok") && c.Got == "err" && c.Op != "untarindex" && c.Op != "untar":
+		r.Fail("predicate", c.Op+"/nil-but-incomplete", fmt.Sprintf("%s returned nil after cancellation at hit %d (n=%d, variant %s%s) but the work is not complete: %s", c.Op, c.K, c.N, c.Variant, map[bool]string{true: ", context-bound stores", false: ""}[c.CtxBound], c.Detail), c)
+	case c.Fired && !c.CtxBound && (c.Variant == "ok" || c.Variant == "seed-ok") && c.Got == "err" && c.Op != "untarindex" && c.Op != "untar":
 		// nothing is wrong with the input and nothing but the cancellation happened: the error must be Interrupted
 		// (UnTar/UnTarIndex excepted: the decoder may legitimately report the truncated stream first)
 		r.Fail("predicate", c.Op+"/cancel-reported-as-other-error", fmt.Sprintf("%s (n=%d) was cancelled at hit %d and returned a non-Interrupted error: %s", c.Op, c.N, c.K, c.Detail), c)
@@ -570,6 +577,35 @@ func runC07(a vh.Args, o *vh.Oracle, r *vh.Result) error {
 						c.Variant, c.N, c.K = v, n, k
 						if err := c07Check(a, o, r, &c, -1); err != nil {
 							return err
+						}
+					}
+					// (A') context-bound stores: the call inside which the context is cancelled, and every later one, fails.
+					// Store call sites only, the last ones always included (after the feeder handed out the last job).
+					if v == "ok" && (sp.op == "copy" || sp.op == "chop" || sp.op == "chunkstream" || sp.op == "assemble") {
+						var stSites []string
+						for _, st := range c07Sites[sp.op] {
+							if strings.HasPrefix(st, "st.") {
+								stSites = append(stSites, st)
+							}
+						}
+						sb := c0
+						sb.Variant, sb.N, sb.K, sb.Sites = v, n, -1, stSites
+						if err := c07Exec(a, &sb); err != nil {
+							return err
+						}
+						ks := pickKs(rng, sb.Hits, 6)
+						for back := 0; back < 3*n && back < sb.Hits; back++ {
+							ks = append(ks, sb.Hits-back)
+						}
+						for _, k := range ks {
+							if k < 1 {
+								continue
+							}
+							c := c0
+							c.Variant, c.N, c.K, c.Sites, c.CtxBound = v, n, k, stSites, true
+							if err := c07Check(a, o, r, &c, -1); err != nil {
+								return err
+							}
 						}
 					}
 					// (B) feeder-site cancellation with model correspondence
